@@ -2,8 +2,10 @@ package engines
 
 import (
 	"fmt"
+	"os"
 	"sort"
 	"strings"
+	"syscall"
 	"testing"
 	"time"
 
@@ -34,7 +36,7 @@ func init() {
 		Variants []string
 	}{"histsim", []string{"crash", "crash", "crash", "reader"}}
 	e := PropEngines["C06"]
-	e.Variants = []string{"seq", "seq", "seq", "race"}
+	e.Variants = []string{"seq", "seq", "seq", "race", "diskfull"}
 	PropEngines["C06"] = e
 }
 
@@ -169,6 +171,7 @@ type histCtx struct {
 	marker  int
 	nameOf  []string // current name per slot (renames change it)
 	relaxed bool     // C07: after a kill
+	faulty  bool     // C06 diskfull: writes may fail; a failed operation has acknowledged nothing
 	crashInfo string
 	crashDetail string
 }
@@ -241,7 +244,9 @@ func (h *histCtx) applyOp(op histOp) bool {
 			return true
 		}
 		if err := r.db.Write(mkStatus(r.id, h.nameOf[op.Dag], h.marker, dagsched.StatusRunning)); err != nil {
-			h.viol("write-failed", nameClass(h.nameOf[op.Dag]), "Write failed: %v", err)
+			if !h.faulty {
+				h.viol("write-failed", nameClass(h.nameOf[op.Dag]), "Write failed: %v", err)
+			}
 			return true
 		}
 		r.acked = h.marker
@@ -254,7 +259,9 @@ func (h *histCtx) applyOp(op histOp) bool {
 		h.marker++
 		r.maxTried = h.marker
 		if err := r.db.Write(mkStatus(r.id, "n", h.marker, dagsched.StatusRunning)); err != nil {
-			h.viol("write-failed", "open-run", "Write failed: %v", err)
+			if !h.faulty {
+				h.viol("write-failed", "open-run", "Write failed: %v", err)
+			}
 			return true
 		}
 		r.acked = h.marker
@@ -266,11 +273,17 @@ func (h *histCtx) applyOp(op histOp) bool {
 		h.marker++
 		r.maxTried = h.marker
 		if err := r.db.Write(mkStatus(r.id, "n", h.marker, dagsched.StatusSuccess)); err != nil {
-			h.viol("write-failed", "open-run", "Write failed: %v", err)
+			if !h.faulty {
+				h.viol("write-failed", "open-run", "Write failed: %v", err)
+				return true
+			}
+			// the run ends all the same: its record is closed (and compacted) with what it holds
+			_ = r.db.Close()
+			r.open = false
 			return true
 		}
 		r.acked = h.marker
-		if err := r.db.Close(); err != nil {
+		if err := r.db.Close(); err != nil && !h.faulty {
 			h.viol("close-failed", "compaction", "Close failed: %v", err)
 		}
 		r.open = false
@@ -294,7 +307,9 @@ func (h *histCtx) applyOp(op histOp) bool {
 			return true // the process was killed inside the operation: nothing was acknowledged
 		}
 		if err != nil {
-			h.viol("update-failed", nameClass(nameFromPath(r.dag)), "Update(%s, %s) failed: %v", r.dag, r.id[:8], err)
+			if !h.faulty {
+				h.viol("update-failed", nameClass(nameFromPath(r.dag)), "Update(%s, %s) failed: %v", r.dag, r.id[:8], err)
+			}
 			return true
 		}
 		r.acked = mk
@@ -586,6 +601,13 @@ func histsim(t *testing.T, tp *simrt.Tape, opts RunOpts) *Outcome {
 		return histSeq(t, tp, cfg, sc, out, opts)
 	case "race":
 		return histRace(t, tp, cfg, sc, out, opts)
+	case "diskfull":
+		maxOps := 14
+		if opts.Thorough {
+			maxOps = 30
+		}
+		sc.Ops = genHistOps(tp, nn, maxOps, false)
+		return histDisk(t, tp, cfg, sc, out, opts)
 	default:
 		sc.Ops = genHistOps(tp, nn, 8, false) // small prior history
 		return histCrash(t, tp, cfg, sc, out, opts)
@@ -740,6 +762,61 @@ func statusOrNil(sf *model.StatusFile) *model.Status {
 		return nil
 	}
 	return sf.Status
+}
+
+// histDisk (C06, variant "diskfull"): the operation sequences of the plain batch on a disk that is full now
+// and then: a seeded share of the writes to history records fails (no space or I/O error) after none, one,
+// half or all but the last byte of the data has been written. An operation that reported an error has
+// acknowledged nothing; whatever was acknowledged before and after must be what the queries return — the
+// fragment a failed write left behind must not swallow a later status, and a record must not vanish because
+// its compaction could not be written.
+func histDisk(t *testing.T, tp *simrt.Tape, cfg simrt.Config, sc *histScenario, out *Outcome, opts RunOpts) *Outcome {
+	den := pick(tp, 2, 3, 5, 9)
+	cfg.FaultPlan = func(op *simrt.OpInfo) simrt.Fault {
+		if op.Kind != "write" || !strings.HasSuffix(op.Path, ".dat") || op.Len == 0 || !tp.Chance(simrt.SFault, 1, den) {
+			return simrt.Fault{}
+		}
+		n := []int{0, 1, op.Len / 2, op.Len - 1}[tp.Draw(simrt.SFault, 4)]
+		op.Proc.W.CountFault("write_error")
+		if n > 0 {
+			op.Proc.W.CountFault("short_write")
+		}
+		var errno syscall.Errno = syscall.ENOSPC
+		if tp.Chance(simrt.SFault, 1, 4) {
+			errno = syscall.EIO
+		}
+		return simrt.Fault{Kind: simrt.FErr, Errno: errno, N: n}
+	}
+	res := simrt.Run(t, cfg, func(w *simrt.World) {
+		seedIDs(tp)
+		setupDirs(w)
+		h := &histCtx{w: w, sc: sc, m: &histModel{}, out: out, prop: "C06", nameOf: append([]string{}, sc.Names...), relaxed: true, faulty: true}
+		h.crashInfo = "after-failed-writes"
+		h.server = jsondb.New(dataDir, sc.LatestToday)
+		for i, op := range sc.Ops {
+			if !h.applyOp(op) || op.Kind == "sleep" {
+				continue
+			}
+			tag := fmt.Sprintf("op %d %s", i, op.Kind)
+			h.relaxedCheck(tag, h.server, "cached", nil)
+			h.relaxedCheck(tag, newDB(w, sc.LatestToday), "fresh", nil)
+			if len(out.Violations) > 0 {
+				break
+			}
+		}
+		acked := 0
+		for _, r := range h.m.runs {
+			if r.acked > 0 {
+				acked++
+			}
+		}
+		out.NonTrivial = acked >= 1 && w.Stats.Faults["write_error"] > 0
+	})
+	fillOutcome(out, res, opts)
+	if len(res.Panics) > 0 {
+		out.Violations = append(out.Violations, Violation{Prop: "C06", Clause: "panic", Disc: panicDisc(res.Panics[0]), Msg: res.Panics[0]})
+	}
+	return out
 }
 
 func histSeq(t *testing.T, tp *simrt.Tape, cfg simrt.Config, sc *histScenario, out *Outcome, opts RunOpts) *Outcome {
@@ -1129,6 +1206,37 @@ func histCrash(t *testing.T, tp *simrt.Tape, cfg simrt.Config, sc *histScenario,
 			simrt.Sleep(time.Duration(tp.Draw(simrt.SGen, 3)) * 700 * time.Millisecond)
 			h.relaxedCheck("after-victim", h.server, "cached", fl)
 			h.relaxedCheck("after-victim", newDB(w, sc.LatestToday), "fresh", fl)
+			if crashed && fl == nil && len(out.Violations) == 0 {
+				// life goes on after the crash: a manual status update of the interrupted run (and of one other
+				// run) is recorded by a new process; once acknowledged it is the run's last status, whatever the
+				// killed process left at the end of the record
+				var cands []*mRun
+				for _, r := range h.m.runs {
+					if !r.removed && r.acked > 0 {
+						cands = append(cands, r)
+					}
+				}
+				sort.SliceStable(cands, func(i, j int) bool { return cands[i].maxTried > cands[j].maxTried })
+				if len(cands) > 2 {
+					cands = cands[:2]
+				}
+				saved := h.crashInfo
+				h.crashInfo = "update-after-" + saved
+				for _, r := range cands {
+					h.marker++
+					mk := h.marker
+					r.maxTried = mk
+					if err := newDB(w, sc.LatestToday).Update(r.dag, r.id, mkStatus(r.id, "n", mk, dagsched.StatusError)); err == nil {
+						r.acked = mk
+						w.Probe("update_after_crash_acknowledged")
+					} else {
+						w.Probe("update_after_crash_refused")
+					}
+				}
+				h.relaxedCheck("after-recovery-update", h.server, "cached", nil)
+				h.relaxedCheck("after-recovery-update", newDB(w, sc.LatestToday), "fresh", nil)
+				h.crashInfo = saved
+			}
 		})
 		return res, h
 	}
@@ -1163,7 +1271,11 @@ func histCrash(t *testing.T, tp *simrt.Tape, cfg simrt.Config, sc *histScenario,
 	}
 	for i, a := range arms {
 		sc.CrashAt = append(sc.CrashAt, a.k*10+a.mode)
-		r2, _ := runWorld(&a, opts.Trace && i == len(arms)-1)
+		traceArm := len(arms) - 1
+		if v := os.Getenv("VERIF_TRACE_ARM"); v != "" { // debugging aid: which crash point's world is traced in a replay
+			fmt.Sscan(v, &traceArm)
+		}
+		r2, _ := runWorld(&a, opts.Trace && i == traceArm)
 		out.Evals++
 		out.Steps += r2.Steps
 		out.FakeTime += r2.FakeTime
@@ -1179,7 +1291,7 @@ func histCrash(t *testing.T, tp *simrt.Tape, cfg simrt.Config, sc *histScenario,
 			bump(out, k)
 			_ = v
 		}
-		if opts.Trace && i == len(arms)-1 {
+		if opts.Trace && i == traceArm {
 			out.Trace = r2.Trace
 			out.Events = fmtEvents(r2.Events, 400)
 		}
